@@ -66,6 +66,9 @@ type workerTrack struct {
 	// end of the last Synchronize call that looked at the worker's state,
 	// plus the configured timeout.
 	model time.Time
+	// Independent count of redundant re-issues of the current assignment.
+	assignedTask uintptr
+	reissues     int
 }
 
 type oracles struct {
@@ -668,6 +671,13 @@ func (o *oracles) checkBackground(op *scheduler.VerifOperation, snap *scheduler.
 func (o *oracles) checkNewAssignment(pw, nw *scheduler.VerifWorker, prev, snap *scheduler.VerifSnapshot) {
 	w := o.w
 	o.assignments++
+	key := nw.WorkerKey + "|" + fmt.Sprint(nw.Queue)
+	tr := o.wtrack[key]
+	if tr == nil {
+		tr = &workerTrack{}
+		o.wtrack[key] = tr
+	}
+	tr.assignedTask, tr.reissues = nw.TaskID, 0
 	if pw != nil && isDrained(prev, pw) && isDrained(snap, nw) {
 		w.violate("C05/assigned-to-drained-worker", fmt.Sprintf("worker %s in %v received task %s although it is drained or terminating", nw.WorkerKey, nw.Queue, nw.ActionDigest[:8]))
 	}
@@ -754,6 +764,11 @@ func (o *oracles) checkCompletionCause(op, pop *scheduler.VerifOperation, prev, 
 		if okCause {
 			pw := findWorker(prev, actingWorker.queueKey(), actingWorker.workerKey())
 			okCause = pw != nil && pw.TaskID == op.TaskID
+			// Independent count: how often was this very assignment handed
+			// to this worker again?
+			if tr := o.wtrack[actingWorker.workerKey()+"|"+fmt.Sprint(actingWorker.queueKey())]; okCause && tr != nil && (tr.assignedTask != op.TaskID || tr.reissues != w.cfg.WorkerTaskRetryCount) {
+				okCause = false
+			}
 		}
 		if !okCause {
 			rc := -1
@@ -930,6 +945,15 @@ func (o *oracles) processSyncEnd(obs observation, snap *scheduler.VerifSnapshot)
 	}
 	switch ds := resp.GetDesiredState().GetWorkerState().(type) {
 	case *remoteworker.DesiredState_Executing_:
+		if wk != nil && wk.TaskID != 0 {
+			// Was this a redundant re-issue? Yes if the task was already
+			// assigned before this step and the call did not get it by
+			// being woken up while waiting for work.
+			pw := findWorker(o.prev, wa.queueKey(), wa.workerKey())
+			if pw != nil && pw.ID == wk.ID && pw.TaskID == wk.TaskID && !wa.sawBlocked && tr.assignedTask == wk.TaskID {
+				tr.reissues++
+			}
+		}
 		got := ds.Executing.GetActionDigest().GetHash()
 		if wk == nil || assigned != got {
 			w.violate("C01/response-not-assigned", fmt.Sprintf("worker %s was told to execute %s, but the task assigned to it is %q", wa.name, got[:8], assigned))
@@ -982,10 +1006,35 @@ func (o *oracles) wakeupInvariants(snap *scheduler.VerifSnapshot) {
 			w.k.Probe("terminate_workers_blocked")
 		}
 	}
+	// A worker is exempt from expiry only while one of its Synchronize calls
+	// is in progress.
+	for i := range snap.Workers {
+		wk := &snap.Workers[i]
+		if !wk.InSync {
+			continue
+		}
+		inCall := false
+		for _, wa := range w.workers {
+			if wa.inCall && wa.workerKey() == wk.WorkerKey && wa.queueKey() == wk.Queue {
+				inCall = true
+			}
+		}
+		if !inCall {
+			msg := fmt.Sprintf("worker %s in %v is exempt from expiry (as if synchronizing) although none of its Synchronize calls is in progress: it can never time out, and its task %q can never fail over", wk.WorkerKey, wk.Queue, short(wk.ActionDigest))
+			w.violate("C06/worker-never-expires", msg)
+			w.violate("C02/worker-never-expires", msg)
+			w.violate("C01/worker-never-expires", msg)
+		}
+	}
 	// A worker parked in the "drained" wait of Synchronize must be woken when
 	// its last matching drain is removed (C05: removing the drain makes it
 	// eligible again; C06: blocked calls return once their condition occurs).
 	for _, wa := range w.workers {
+		if wa.inCall {
+			if wk := findWorker(snap, wa.queueKey(), wa.workerKey()); wk != nil && wk.Blocked {
+				wa.sawBlocked = true
+			}
+		}
 		if !wa.inCall || !wa.actor.Blocked() {
 			continue
 		}
